@@ -52,7 +52,7 @@ CHECK = {
         "sqrt(population variance / (n-1)) pinned by test/test_stats.cpp, accepted inside the rounding band of its one-pass variance",
         "classification errors are step functions: a (trial, fold, split) whose predictions lie within 1e-7 relative of a decision boundary is "
         "compared on the loss statistics only (counted 'fragile-classification-error')",
-        "fits that diverge (non-finite statistics, tuner 'invalid value' exception) or hit the surrogate tuner's documented critical are discarded and counted",
+        "fits that diverge (non-finite statistics, a fold or final model with a prediction above 1e30 in magnitude, tuner 'invalid value' exception) or hit the surrogate tuner's documented critical are discarded and counted",
     ],
     "technique": ("exhaustive enumeration of short error histories + stateful property-based testing (rapidcheck) of the early-stopping monitor against "
                   "a reference model; recompute-from-scratch of every stored statistic through the lower-level API for generated model fits"),
